@@ -517,14 +517,18 @@ func (in *inst) apply(newNS string) bool {
 		cCoordPanics.Add(1)
 		return false
 	}
-	if in.vc.SupplierErrors > 0 {
-		for _, ns := range added {
-			in.selFailed[ns] = true
-		}
-		if newNS != "" {
-			in.selFailed[newNS] = true
-		}
+	// a namespace is (re-)created by whatever config change finds it missing from the status, not only by its own AddNamespace
+	created := map[string]bool{}
+	for _, ns := range added {
+		created[ns] = true
 	}
+	for ns := range in.vc.SupplierErrNS {
+		created[ns] = true
+	}
+	for ns := range created {
+		in.selFailed[ns] = in.vc.SupplierErrNS[ns] > 0
+	}
+	_ = newNS
 	in.checkIds(added)
 	in.afterPublish()
 	return true
@@ -908,7 +912,8 @@ func checkGenerated(base int64, n uint32) string {
 	return ""
 }
 
-func sweepGenerate(run *ev.Run, maxN uint32) {
+func sweepGenerate(run *ev.Run, maxN uint32, deadline time.Time) {
+	var cut atomic.Bool
 	bases := []int64{0, 7, 1 << 40}
 	var next atomic.Uint32
 	var evals, ranges atomic.Int64
@@ -922,6 +927,10 @@ func sweepGenerate(run *ev.Run, maxN uint32) {
 				// hand out n from large to small so the long ones start first
 				k := next.Add(1)
 				if k > maxN {
+					return
+				}
+				if time.Now().After(deadline) {
+					cut.Store(true)
 					return
 				}
 				n := maxN - k + 1
@@ -952,6 +961,9 @@ func sweepGenerate(run *ev.Run, maxN uint32) {
 	run.Add("generate_shards_ranges_checked", ranges.Load())
 	run.Add("evaluations", evals.Load())
 	run.Coverage["generate_shards_max_n"] = maxN
+	if cut.Load() {
+		run.NotExhaustive("GenerateShards sweep cut by its deadline (n is handed out from max_n downwards)")
+	}
 	for key, ns := range sw.badN {
 		sort.Slice(ns, func(i, j int) bool { return ns[i] < ns[j] })
 		first := ns[0]
@@ -1259,7 +1271,7 @@ func main() {
 	realReps := 300
 	if run.Tier == "thorough" {
 		depth = 6
-		budget = 14 * time.Minute
+		budget = 18 * time.Minute
 		maxN = 1 << 17
 		standaloneN = 512
 		big = append(big, 65536, 65537, 70000, 100000)
@@ -1288,7 +1300,8 @@ func main() {
 	}
 	var plan []e1
 	if run.Tier == "thorough" {
-		plan = []e1{{"reduced", 3, depth}, {"reduced", 2, depth}, {"full", 3, depth - 1}, {"full", 1, depth - 2}, {"full", 2, depth - 2}, {"full", 4, depth - 2}}
+		// cheapest first; the last one takes whatever time is left
+		plan = []e1{{"reduced", 3, depth}, {"reduced", 2, depth}, {"full", 1, depth - 2}, {"full", 2, depth - 2}, {"full", 4, depth - 2}, {"full", 3, depth - 1}}
 	} else {
 		plan = []e1{{"quick", 3, depth}, {"quick", 1, depth}}
 	}
@@ -1305,11 +1318,11 @@ func main() {
 		}))
 	}
 	start := time.Now()
-	sweepGenerate(run, maxN)
 	standalone(run, standaloneN)
 	bigNamespaces(run, big, 4096)
-	tieEnumeration(run, tieCount, slotCap, start.Add(budget/4))
 	realTieRuns(run, realReps)
+	tieEnumeration(run, tieCount, slotCap, time.Now().Add(budget/8))
+	sweepGenerate(run, maxN, time.Now().Add(budget/4))
 	pre := time.Since(start)
 	// E1 searches share the remaining budget
 	totalStates := int64(0)
